@@ -18,7 +18,7 @@ import (
 // that shares it is reported as a cycle.
 func init() {
 	register(&Rule{ID: "CYCLE.one-boundary", Floor: 1,
-		Doc: "every comparison of the cycle guard's depth with cycleGuardDepth, anywhere in the interpreter, splits the depths at the same value as the comparison in cycleGuard.descend that decides whether a node is recorded on the path (`depth < K` / `depth >= K` cut at K; `depth <= K` / `depth > K` cut at K+1): what descend records, ascend / tracking un-records",
+		Doc: "every comparison of the cycle guard's depth with cycleGuardDepth, anywhere in the interpreter, splits the depths at the same value as the others (the test that decides whether a node is recorded on the path, and the tests that decide whether it is taken off) (`depth < K` / `depth >= K` cut at K; `depth <= K` / `depth > K` cut at K+1): what descend records, ascend / tracking un-records",
 		Run: func(c *Ctx) []Obligation {
 			const rid = "CYCLE.one-boundary"
 			depth := c.LookupField("lisp.cycleGuard.depth")
@@ -48,10 +48,14 @@ func init() {
 					}
 					op := be.Op
 					var other ast.Expr
+					isDepth := func(e ast.Expr) bool {
+						f := FieldOfSelector(info, e)
+						return f != nil && (f == depth || canonFieldName(f) == "depth")
+					}
 					switch {
-					case FieldOfSelector(info, be.X) == depth:
+					case isDepth(be.X):
 						other = be.Y
-					case FieldOfSelector(info, be.Y) == depth:
+					case isDepth(be.Y):
 						other = be.X
 						switch op {
 						case token.LSS:
@@ -80,14 +84,18 @@ func init() {
 					return true
 				})
 			}
-			ref := -2
+			// the reference cut: the one most comparisons use (ties: the cut of `<` / `>=`, which is
+			// what "record from depth K on" reads like); with a single comparison there is nothing to disagree
+			count := map[int]int{}
 			for _, x := range cmps {
-				if shortName(x.u.Obj) == "descend" {
-					ref = x.cut
-				}
+				count[x.cut]++
 			}
-			if ref == -2 {
-				return []Obligation{anchorMissing(rid, "a comparison of depth with cycleGuardDepth in cycleGuard.descend")}
+			ref := 0
+			if count[1] > count[0] {
+				ref = 1
+			}
+			if len(cmps) == 0 {
+				return []Obligation{anchorMissing(rid, "a comparison of a guard depth with cycleGuardDepth")}
 			}
 			var obs []Obligation
 			ords := map[string]*ordinal{}
@@ -98,9 +106,9 @@ func init() {
 				}
 				construct := ords[name].next("depth compared with cycleGuardDepth")
 				if x.cut == ref {
-					obs = append(obs, mkOb(c, rid, x.u, construct, x.node, Proved, "cuts at the same depth as descend's recording test", true))
+					obs = append(obs, mkOb(c, rid, x.u, construct, x.node, Proved, "cuts at the same depth as every other comparison with cycleGuardDepth", true))
 				} else {
-					obs = append(obs, mkOb(c, rid, x.u, construct, x.node, Violated, fmt.Sprintf("`%s` does not split the depths where descend's recording test does: a node entered at exactly the boundary depth is put on the path and never taken off (or the reverse), so a value that only shares that node is printed as #<cycle> — and reads back as something else", types.ExprString(x.node)), true))
+					obs = append(obs, mkOb(c, rid, x.u, construct, x.node, Violated, fmt.Sprintf("`%s` does not split the depths where the other comparisons with cycleGuardDepth do: a node entered at exactly the boundary depth is put on the path and never taken off (or the reverse), so a value that only shares that node is printed as #<cycle> — and reads back as something else", types.ExprString(x.node)), true))
 				}
 			}
 			return obs
